@@ -3,7 +3,7 @@ use crate::JsValue;
 use crate::value::JsVariant;
 use crate::vm::opcode::{IndexOperand, RegisterOperand};
 use crate::{
-    Context, JsNativeError, JsResult,
+    Context, JsNativeError, JsObject, JsResult,
     builtins::function::set_function_name,
     object::{internal_methods::InternalMethodPropertyContext, shape::slot::SlotAttributes},
     property::{PropertyDescriptor, PropertyKey},
@@ -164,8 +164,13 @@ impl SetPropertyByValue {
 
         // Fast Path:
         'fast_path: {
+            // NOTE: `super[i] = v` sets on the home object's prototype with `this` as the receiver:
+            // the element must then be defined on the receiver, not stored in `object`.
             if object.is_array()
                 && let PropertyKey::Index(index) = &key
+                && receiver
+                    .as_object()
+                    .is_some_and(|receiver| JsObject::equals(&receiver, &object))
             {
                 let mut object_borrowed = object.borrow_mut();
 
